@@ -2,7 +2,7 @@
 from .. import core, econ, econgen, econprops
 
 ID = 'C01'
-RUNS = {'quick': 1400, 'thorough': 60000}
+RUNS = {'quick': 800, 'thorough': 60000}
 WALL_CAP = {'quick': 70, 'thorough': 1800}
 BLOCK = 10
 RULE = ('runs = seeded ECON sessions: programs over the public object API drawn from the topology families (closed, '
